@@ -237,7 +237,11 @@ temporary_stack_initializer::temporary_stack_initializer(std::size_t initial_siz
 temporary_stack_initializer::~temporary_stack_initializer()
 {
     if (is_created)
+    {
         get().~temporary_stack();
+        // the next initializer or get_temporary_stack() call creates it again
+        is_created = false;
+    }
 }
 
 temporary_stack& foonathan::memory::get_temporary_stack(std::size_t initial_size)
